@@ -1,6 +1,7 @@
 package main
 
 import (
+	"encoding/json"
 	"fmt"
 	"os"
 )
@@ -25,6 +26,14 @@ func main() {
 	case "dumpprogs":
 		os.MkdirAll("/tmp/gp", 0755)
 		dumpProgs(20)
+	case "dumpsrc": // print the materialised source and comment-free form of a C19 replay file
+		raw, _ := os.ReadFile(os.Args[2])
+		var rf ReplayFile
+		json.Unmarshal(raw, &rf)
+		src, plain := rf.Scenario.materialise()
+		os.Stdout.Write(src)
+		fmt.Println("-----plain-----")
+		os.Stdout.Write(plain)
 	case "replay":
 		if len(os.Args) < 3 {
 			usage()
